@@ -161,9 +161,11 @@ func (ms *MessageStreamer) Go(ctx context.Context, conn StreamConnection) error 
 				mu.Unlock()
 			}
 			if len(msg.Ack) != 0 || len(msg.Nack) != 0 {
-				if err := ms.doAcksNacks(ctx, msg.Ack, msg.Nack); err != nil {
-					return err
-				}
+				// Stop counting these against the client's limits before settling them
+				// in the database, not after: a nack makes the delivery deliverable
+				// again, and if the sender fetches and re-sends it between the commit
+				// and a later delete, that delete would drop the entry of the copy the
+				// client now holds, letting the stream exceed the client's limits.
 				mu.Lock()
 				for _, id := range msg.Ack {
 					delete(pending, id)
@@ -171,24 +173,30 @@ func (ms *MessageStreamer) Go(ctx context.Context, conn StreamConnection) error 
 				for _, id := range msg.Nack {
 					delete(pending, id)
 				}
-				tryWake()
 				mu.Unlock()
+				if err := ms.doAcksNacks(ctx, msg.Ack, msg.Nack); err != nil {
+					return err
+				}
+				tryWake()
 			}
 			if len(msg.Delay) != 0 {
 				delay := time.Duration(msg.DelaySeconds * float64(time.Second))
-				if err := ms.doDelay(ctx, msg.Delay, delay); err != nil {
-					return err
-				}
 				if delay <= 0 {
 					// a non-positive deadline is a nack (the only form a gRPC client
 					// has): the client no longer holds these messages, so they must
-					// stop counting against its flow control limits
+					// stop counting against its flow control limits (before the
+					// transaction, for the same reason as above)
 					mu.Lock()
 					for _, id := range msg.Delay {
 						delete(pending, id)
 					}
-					tryWake()
 					mu.Unlock()
+				}
+				if err := ms.doDelay(ctx, msg.Delay, delay); err != nil {
+					return err
+				}
+				if delay <= 0 {
+					tryWake()
 				}
 			}
 		}
